@@ -19,6 +19,7 @@ import (
 	"regexp"
 	"strconv"
 	"strings"
+	"time"
 
 	"github.com/jig/lisp"
 	"github.com/jig/lisp/lib/call"
@@ -37,6 +38,7 @@ func init() { register(c03{}) }
 type n3 struct {
 	Kind       string // const trace probe sym tsym mprobe mthrow throw do try wrap let
 	RawPanicOK bool   // probe: an enclosing try body will recover a Go panic of a raw builtin
+	BodyOnly   bool   // probe: inside a try body and inside no handler (a budget expiring here leaves the try's own context alive)
 	Src        string // const: lisp source; trace: tag
 	Val        string // const: canonical value
 	Site       int    // probe site index
@@ -59,6 +61,8 @@ var c03Consts = [][2]string{
 var c03Wraps = []string{"fn1", "fn2", "fn3", "m-id", "cond", "or", "and", "thread", "call1", "apply", "let-other"}
 
 type c03Gen struct {
+	handlerDepth int
+
 	tp    *Tape
 	sites int
 	tags  int
@@ -77,7 +81,7 @@ func (g *c03Gen) trace(prefix string) *n3 {
 
 func (g *c03Gen) probe(inBody bool) *n3 {
 	g.sites++
-	return &n3{Kind: "probe", Site: g.sites, Raw: g.tp.Chance(LaneWork, 1, 3), RawPanicOK: inBody}
+	return &n3{Kind: "probe", Site: g.sites, Raw: g.tp.Chance(LaneWork, 1, 3), RawPanicOK: inBody, BodyOnly: inBody && g.handlerDepth == 0}
 }
 
 var c03MacroThrowConsts = [][2]string{{"7", "7"}, {`"ms"`, `"ms"`}, {":mk", ":mk"}, {"[1 2]", "[1 2]"}, {"{:reason :arity}", "{:reason :arity}"}, {"nil", "nil"}}
@@ -142,16 +146,22 @@ func (g *c03Gen) expr(depth int, inFin bool, inBody bool) *n3 {
 // try generates a try form; inBody says whether some enclosing try body would recover a Go panic.
 func (g *c03Gen) try(depth int, inBody bool) *n3 {
 	n := &n3{Kind: "try"}
-	for i := 0; i < 1+g.tp.Draw(LaneWork, 3); i++ {
+	nBody := 1 + g.tp.Draw(LaneWork, 3)
+	if g.tp.Chance(LaneWork, 1, 10) {
+		nBody = 0 // a try form without any body form (what a resource macro called with an empty body produces)
+	}
+	for i := 0; i < nBody; i++ {
 		n.Kids = append(n.Kids, g.expr(depth, false, true))
 	}
 	shape := g.tp.Weighted(LaneWork, []int{3, 2, 3, 1})
 	if shape == 0 || shape == 2 {
 		n.HasC = true
 		n.Catch = append(n.Catch, g.trace("h"))
+		g.handlerDepth++
 		for i := 0; i < 1+g.tp.Draw(LaneWork, 2); i++ {
 			n.Catch = append(n.Catch, g.expr(depth, false, inBody))
 		}
+		g.handlerDepth--
 	}
 	if shape == 1 || shape == 2 {
 		n.HasF = true
@@ -224,7 +234,10 @@ func (n *n3) render() string {
 			return "(let [other 1] " + x + ")"
 		}
 	case "try":
-		s := "(try " + renderAll(n.Kids)
+		s := "(try"
+		if len(n.Kids) > 0 {
+			s += " " + renderAll(n.Kids)
+		}
 		if n.HasC {
 			s += " (catch e " + renderAll(n.Catch) + ")"
 		}
@@ -238,7 +251,11 @@ func (n *n3) render() string {
 
 // ---- fault plans ----
 
-var c03Faults = []string{"ok", "err", "err-wrapped", "panic-err", "panic-val", "throw-val"}
+var c03Faults = []string{"ok", "err", "err-wrapped", "panic-err", "panic-val", "throw-val", "budget-timeout"}
+
+// errBudget is what a probe returns when it has waited until the context it was handed ended (the
+// share of the deadline that the enclosing try body got): a timeout raised inside a try body.
+var errBudget = errors.New("timeout: probe waited until its context ended")
 
 type c03Plan map[int]string // site -> fault kind
 
@@ -254,6 +271,7 @@ type c03Rt struct {
 	plan       c03Plan
 	fired      map[string]int
 	rawPanicOK map[int]bool // sites of raw builtins whose Go panic an enclosing try body recovers
+	bodyOnly   map[int]bool // sites where a budget timeout may be injected
 }
 
 // effective maps the planned fault of a site to what is injected there: a raw types.Func has no panic
@@ -262,6 +280,9 @@ type c03Rt struct {
 func effectiveFault(f string, raw, rawPanicOK bool) string {
 	if f == "" {
 		return "ok"
+	}
+	if f == "budget-timeout-ineligible" {
+		return "err"
 	}
 	if raw && f == "panic-val" {
 		return "err"
@@ -272,8 +293,18 @@ func effectiveFault(f string, raw, rawPanicOK bool) string {
 	return f
 }
 
-func (rt *c03Rt) probe(site int, raw bool) (types.MalType, error) {
-	f := effectiveFault(rt.plan[site], raw, rt.rawPanicOK[site])
+func (rt *c03Rt) probe(ctx context.Context, site int, raw bool) (types.MalType, error) {
+	pf := rt.plan[site]
+	if pf == "budget-timeout" && !rt.bodyOnly[site] {
+		pf = "budget-timeout-ineligible"
+	}
+	f := effectiveFault(pf, raw, rt.rawPanicOK[site])
+	if f == "budget-timeout" {
+		// wait (on the fake clock) until the context handed to this builtin has ended
+		rt.fired[f]++
+		<-ctx.Done()
+		return nil, errBudget
+	}
 	if raw && f == "panic-err" {
 		rt.fired["raw-panic-err"]++
 	}
@@ -325,9 +356,20 @@ func (m *m3) eval(n *n3) (string, bool, string) {
 		m.trace = append(m.trace, n.Src)
 		return n.Src, false, ""
 	case "probe":
-		return m.failure(effectiveFault(m.plan[n.Site], n.Raw, n.RawPanicOK), n.Site)
+		pf := m.plan[n.Site]
+		if pf == "budget-timeout" {
+			if n.BodyOnly {
+				return "", true, "#budget-timeout"
+			}
+			pf = "budget-timeout-ineligible"
+		}
+		return m.failure(effectiveFault(pf, n.Raw, n.RawPanicOK), n.Site)
 	case "mprobe":
-		return m.failure(effectiveFault(m.plan[n.Site], false, false), n.Site)
+		pf := m.plan[n.Site]
+		if pf == "budget-timeout" {
+			pf = "budget-timeout-ineligible"
+		}
+		return m.failure(effectiveFault(pf, false, false), n.Site)
 	case "mthrow":
 		return "", true, n.Val
 	case "tsym":
@@ -400,6 +442,9 @@ func canon03(v types.MalType) string {
 var sentinelMsgRE = regexp.MustCompile(`"sentinel-(\d+)"`)
 
 func err03(err error) string {
+	if errors.Is(err, errBudget) {
+		return "#budget-timeout"
+	}
 	for i, s := range c03Sentinels {
 		if errors.Is(err, s) {
 			return sentinelStr(i)
@@ -441,10 +486,10 @@ func (c03) Run(tp *Tape, opt RunOpt) *RunOut {
 	h := &Harness{S: s, Canon: canon03}
 	e := NewEnv()
 	h.Install(e)
-	rt := &c03Rt{fired: map[string]int{}, rawPanicOK: rawPanicSites(root)}
-	call.CallOverrideFN(e, "probe!", func(i int) (types.MalType, error) { return rt.probe(i, false) })
+	rt := &c03Rt{fired: map[string]int{}, rawPanicOK: rawPanicSites(root, false), bodyOnly: rawPanicSites(root, true)}
+	call.CallOverrideFN(e, "probe!", func(ctx context.Context, i int) (types.MalType, error) { return rt.probe(ctx, i, false) })
 	e.Set(types.Symbol{Val: "probe-raw!"}, types.Func{Fn: func(ctx context.Context, a []types.MalType) (types.MalType, error) {
-		return rt.probe(a[0].(int), true)
+		return rt.probe(ctx, a[0].(int), true)
 	}})
 	if _, err := lisp.EVAL(context.Background(), mustRead(c03Setup), e); err != nil {
 		panic("c03 setup: " + err.Error())
@@ -486,7 +531,11 @@ func (c03) Run(tp *Tape, opt RunOpt) *RunOut {
 					panicked = panicString(r)
 				}
 			}()
-			res, err := lisp.EVAL(context.Background(), ast, e)
+			// every plan runs under a deadline of one simulated hour: nothing consumes simulated time
+			// except a budget-timeout fault, which waits for the end of the context it was handed
+			ctx, cancel := context.WithTimeout(context.Background(), time.Hour)
+			res, err := lisp.EVAL(ctx, ast, e)
+			cancel()
 			if err != nil {
 				got = "THROWN " + thrown03(err)
 			} else {
@@ -622,14 +671,14 @@ func c03Sig(root *n3, got, want string, wantThrown bool) string {
 func throwLisp(v types.MalType) error { return lisperror.NewLispError(v, nil) }
 
 // rawPanicSites collects the probe sites at which a raw builtin's panic is recovered by an enclosing try body.
-func rawPanicSites(n *n3) map[int]bool {
+func rawPanicSites(n *n3, bodyOnly bool) map[int]bool {
 	m := map[int]bool{}
 	var walk func(x *n3)
 	walk = func(x *n3) {
 		if x == nil {
 			return
 		}
-		if x.Kind == "probe" && x.RawPanicOK {
+		if x.Kind == "probe" && ((bodyOnly && x.BodyOnly) || (!bodyOnly && x.RawPanicOK)) {
 			m[x.Site] = true
 		}
 		for _, k := range x.Kids {
